@@ -1,4 +1,6 @@
 import KdVerif.Model.Filters
+import KdVerif.Proofs.PyIRFl
+import KdVerif.Gen.PyIRFl
 /-
   C12 — event filters select exactly the matching subsequence.
 
@@ -351,5 +353,67 @@ example : osLogEvents { filterProcess := some "44" } stream = [lg 9 "" 44] := by
 example : osLogEvents { filterTid := some 7, filterProcess := some "launchd" } stream = [lg 7 "launchd" 1] := by decide
 example : kevents { filterClass := [300] } none stream = [] :=
   out_of_range_class_selects_nothing _ _ (by decide) (by decide) rfl (by decide)
+
+/-! ### translation tie: the SOURCE TEXT of `kevents` / `os_log_events` / `_is_eventid_allowed`, translated by
+    `tools/gen_pyir_fl.py` into the IR of `Model/PyIRFl` and run by its interpreter, IS the model above -/
+
+/-- **source_is_expected_ir.**  The IR that the translator produces from the working tree's `pykdebugparser.py`
+    (`Gen/PyIRFl.lean`, regenerated on every run) for `_is_eventid_allowed`, `kevents` and `os_log_events` is, term for
+    term, the hand-written `Spec/PyIRFlExpected` the refinement proofs were done for, and the translator met nothing
+    outside the method bodies that it could not express.  (False as soon as one of the three methods is changed in any
+    way that is not a harmless restyling: the build of this module breaks and the check reports it.) -/
+theorem source_is_expected_ir :
+    Gen.PyIRFl.isEventidAllowed = PyIRFl.Expected.isEventidAllowed ∧
+    Gen.PyIRFl.kevents = PyIRFl.Expected.kevents ∧
+    Gen.PyIRFl.osLogEvents = PyIRFl.Expected.osLogEvents ∧
+    Gen.PyIRFl.notes = [] := by decide
+
+/-- **is_eventid_allowed_ir_eq_model.**  `self._is_eventid_allowed(event_id, filter_class)` of the source, interpreted
+    for EVERY configuration, event id and optional class-list argument (`none` = the argument omitted / `None`), returns
+    the bool `Filters.isEventidAllowed` computes on the parser's own list resp. the argument. -/
+theorem is_eventid_allowed_ir_eq_model (cfg : Cfg) (eventid : Nat) (arg : Option (List Nat)) :
+    PyIRFl.runIsEventidAllowed Gen.PyIRFl.prog cfg eventid arg
+      = .ok (.bool (isEventidAllowed cfg eventid (match arg with | none => cfg.filterClass | some l => l))) :=
+  PyIRFl.runIsEventidAllowed_expected _ source_is_expected_ir.1 cfg eventid arg
+
+/-- **kevents_ir_eq_model.**  `self.kevents(kdebug, filter_class)` of the source, interpreted — the stream the method
+    returns consumed to its end, every stacked `filter(lambda e: …)` stage evaluated in the frame's final variables —
+    for EVERY configuration, EVERY optional class-list argument and EVERY stream of events and log records: no
+    exception, and exactly the events `Filters.kevents` lists, in that order.  Together with `kevents_eq_filter` the
+    source text itself selects the declarative subsequence. -/
+theorem kevents_ir_eq_model (cfg : Cfg) (arg : Option (List Nat)) (items : List Item) :
+    PyIRFl.runKevents Gen.PyIRFl.prog cfg arg items = .ok ((kevents cfg arg items).map Item.event) :=
+  PyIRFl.runKevents_expected _ source_is_expected_ir.2.1 source_is_expected_ir.1 cfg arg items
+
+/-- **os_log_events_ir_eq_model.**  `self.os_log_events(kdebug)` of the source, interpreted on every configuration and
+    stream: no exception, and exactly the log records `Filters.osLogEvents` lists, in that order. -/
+theorem os_log_events_ir_eq_model (cfg : Cfg) (items : List Item) :
+    PyIRFl.runOsLogEvents Gen.PyIRFl.prog cfg items = .ok ((osLogEvents cfg items).map Item.log) :=
+  PyIRFl.runOsLogEvents_expected _ source_is_expected_ir.2.2.1 cfg items
+
+/-- The source text selects the declarative subsequence (the tie composed with `kevents_eq_filter`). -/
+theorem kevents_ir_eq_filter (cfg : Cfg) (items : List Item) :
+    PyIRFl.runKevents Gen.PyIRFl.prog cfg none items
+      = .ok (((events items).filter fun e => decide (Sel cfg e)).map Item.event) := by
+  rw [kevents_ir_eq_model, kevents_eq_filter]
+
+private instance exceptDecEq {ε α : Type} [DecidableEq ε] [DecidableEq α] : DecidableEq (Except ε α)
+  | .ok a, .ok b => if h : a = b then isTrue (by rw [h]) else isFalse (by intro e; cases e; exact h rfl)
+  | .error a, .error b => if h : a = b then isTrue (by rw [h]) else isFalse (by intro e; cases e; exact h rfl)
+  | .ok _, .error _ => isFalse (by intro e; cases e)
+  | .error _, .ok _ => isFalse (by intro e; cases e)
+
+/-- non-vacuity: the GENERATED methods run by the interpreter on the mixed stream above — thread + overlapping class /
+    subclass lists, an explicit empty class-list argument, a process filter by pid text, one event id. -/
+example : PyIRFl.runKevents Gen.PyIRFl.prog
+      { filterTid := some 7, filterClass := [4, 300], filterSubclass := [0x040c, 0x0301] } none stream
+    = .ok [.event (ev 1 7 0x040c0004), .event (ev 3 7 0x03010090), .event (ev 4 7 0x040c0004)] := by decide
+example : (PyIRFl.runKevents Gen.PyIRFl.prog { filterClass := [4] } (some []) stream).map List.length = .ok 5 := by decide
+example : PyIRFl.runOsLogEvents Gen.PyIRFl.prog { filterProcess := some "44" } stream = .ok [.log (lg 9 "" 44)] := by
+  decide
+example : PyIRFl.runIsEventidAllowed Gen.PyIRFl.prog { filterClass := [4], filterSubclass := [0x0301] } 0x03010090 none
+    = .ok (.bool true) := by decide
+example : PyIRFl.runIsEventidAllowed Gen.PyIRFl.prog { filterClass := [4] } 0x040c0004 (some [1]) = .ok (.bool false) := by
+  decide
 
 end KdVerif.C12
